@@ -39,7 +39,9 @@ META = {
                   "first-order result types; callbacks and containers included), C11_tail_guarded / tail_sealed / "
                   "tail_preserved / tail_tampered_blames / excluded_field_blames (record-row tails), "
                   "C11_nested_foralls_have_distinct_keys (higher-rank nesting), and refuted variants (no polarity flip in $func; "
-                  "typeof not stopped by a seal) plus the two known key-freshness findings as _refuted lemmas. Tie: the extracted "
+                  "typeof not stopped by a seal; re-applied array contracts deduplicated — C11_dedup_variant_refuted, with "
+                  "C11_array_contract_twice_seals_twice: applying a sealing contract twice seals twice) plus the two known "
+                  "key-freshness findings as _refuted lemmas. Tie: the extracted "
                   "model and nkeval are run on the same generated programs (contracted and bare); outcome classes and exported "
                   "values must agree, and the direct oracle (no model) is contracted==bare for parametric implementations and "
                   "Blame/TailAccess for inspecting, fabricating and tail-touching ones.",
@@ -100,15 +102,19 @@ def evaluate(ck, cases, exe_model, exe_impl, model_args=(), batch=1500):
     shard only loses its own batch)."""
     for start in range(0, len(cases), batch):
         part = cases[start:start + batch]
-        rc, mo, err = core.run_sharded(exe_model, [FUEL] + list(model_args), [c["sx"] for c in part], timeout=3000)
+        modelled = [c for c in part if "raw" not in c]
+        rc, mo, err = core.run_sharded(exe_model, [FUEL] + list(model_args), [c["sx"] for c in modelled], timeout=3000)
         if rc:
             ck.obligation("model-run", "internal", False, "rc=%s %s" % (rc, err[-600:]))
-        srcs, bares = [], []
-        for c, line in zip(part, mo):
+        for c, line in zip(modelled, mo):
             f = (line.split("\t") + ["", "", "", ""])[:4]
             c["src"], c["bare_src"], c["m_c"], c["m_b"] = f
-            srcs.append("\t" + esc(f[0]))
-            bares.append("\t" + esc(f[1]))
+        for c in part:
+            if "raw" in c:
+                # constructs outside the model language (let rec, dictionary types): direct oracle only
+                c["src"], c["bare_src"], c["m_c"], c["m_b"] = c["raw"], c["raw_bare"], None, None
+        srcs = ["\t" + esc(c["src"]) for c in part]
+        bares = ["\t" + esc(c["bare_src"]) for c in part]
         rc, io, err = core.run_sharded(exe_impl, [], srcs + bares, timeout=3000)
         if rc:
             ck.obligation("nkeval-run", "internal", False, "rc=%s %s" % (rc, err[-600:]))
@@ -163,7 +169,7 @@ def judge(ck, c):
         elif klass == "tail-inspect" and c["i_c"] != "ERR TailAccess":
             ck.count("tail_inspect_blamed_not_tailaccess")
     # ---- correspondence model vs implementation
-    if c["m_c"] != c["i_c"] or c["m_b"] != c["i_b"]:
+    if c["m_c"] is not None and (c["m_c"] != c["i_c"] or c["m_b"] != c["i_b"]):
         ck.count("model_vs_impl_disagreements")
         if not violated and ck.stats["model_vs_impl_disagreements"] <= 25:
             ck.obligation("correspondence:model-vs-nkeval", "correspondence", False,
@@ -229,6 +235,8 @@ def run(ck):
     cases += c11_gen.make_cases(rng, n)
     # free-form stream: random (mostly ill-typed) programs with contracts anywhere; model fidelity only
     cases += c11_gen.free_cases(rng.fork(), 300 if ck.tier == "quick" else 6000)
+    # raw Nickel stream (let rec / dictionary types; re-applied container contracts): direct oracle only
+    cases += c11_gen.raw_cases(rng.fork(), 150 if ck.tier == "quick" else 3000)
     evaluate(ck, cases, exe_model, exe_impl)
     for c in cases:
         judge(ck, c)
@@ -240,6 +248,9 @@ def run(ck):
                            "(prenex, mid-spine and higher-rank quantifiers; arrays, records with/without tails, callbacks); impl synthesised "
                            "from T as parametric, then optionally edited into inspect(path, primitive out of %d)/fabricate/tail-inspect/"
                            "tail-add/tail-fabricate/launder/alias; every case is run contracted and bare on nkeval and on the extracted model; "
+                           "a family in which the same container contract occurrences (Array a, nested arrays, records of arrays, dictionaries) are "
+                           "re-applied to values that already carry them (f (f x), another annotated identity of the same shape, and, as raw "
+                           "Nickel judged by the direct oracle only, let rec re-entrancy and {_ : a}), "
                            "plus a free-form stream of random (mostly ill-typed) programs with contracts on arbitrary subterms, compared model vs nkeval only; "
                            "non-trivial = mentions a forall; distinct by exact term" % len(c11_gen.INSPECTORS))
     ck.coverage["partial"] = ("parametric_erasure is proved for the typed fragment stated in Props/C11.v; enum rows, dictionaries and merge are "
